@@ -55,6 +55,7 @@ func subscribe(c *sync.Cond) <-chan struct{} {
 	locked := make(chan struct{})
 
 	go func() {
+		verifPoint("blocking.helper_before_lock")
 		c.L.Lock()
 		close(locked)
 		c.Wait() // registers with the condition and releases c.L atomically
